@@ -445,6 +445,11 @@ def run(sc, live_builder=None, passes=1, decorate=None, faults=None):
                 out["resource_id"] = res.resource_id
             except Exception as e:      # noqa: BLE001 - the exception class is the observation
                 out = {"cls": "Raise", "exc": type(e).__name__, "msg": str(e)[:200]}
+            # anything the function left running in the background (tasks it started and did not await) gets its
+            # chance to reach the API before the call log is read
+            for _ in range(5):
+                await asyncio.sleep(0)
+            await asyncio.sleep(0.5)
             calls = observe_calls(r.cluster)[n0:]
             obs.append({"outcome": out, "calls": calls, "match": seen.get("match"), "target": seen.get("target"),
                         "lookups": list(r.cluster.lookups),
